@@ -327,8 +327,28 @@ def relay3(perm=(0, 1, 2), extra_hops=1):
     return build_program(3, ops, outs)
 
 
+def relay_reuse(H=1, first="old", mode="plain", out_newest_first=False):
+    """two ranks; H receives b, sends d = f(b) back, receives the answer c (which depends on d) and finally sends
+    a = g(b, c): the last message needs an old receive both directly and through a newer one ('first' = which of the two
+    is read first in the payload)"""
+    P = 1 - H
+    ops = [{"src": P, "dst": H, "tag": 100, "deps": [], "use_input": True},            # b
+           {"src": H, "dst": P, "tag": 101, "deps": [0], "use_input": False},          # d
+           {"src": P, "dst": H, "tag": 102, "deps": [1], "use_input": True},           # c
+           {"src": H, "dst": P, "tag": 103, "deps": [0, 2] if first == "old" else [2, 0], "use_input": False}]   # a
+    outs = {H: {"deps": [0, 2], "use_input": True, "kind": "combine"}, P: {"deps": [1, 3], "use_input": True, "kind": "combine"}}
+    if out_newest_first:      # the outputs read their newest receive first
+        outs = {r: dict(o, deps=list(reversed(o["deps"]))) for r, o in outs.items()}
+    return build_program(2, ops, outs, mode=mode)
+
+
 def structured(tier):
     res = []
+    for H in (0, 1):
+        for first in ("old", "new"):
+            res.append((f"relay-reuse-H{H}-{first}", relay_reuse(H, first)))
+            res.append((f"relay-reuse-H{H}-{first}~rf", relay_reuse(H, first, mode="rf")))
+            res.append((f"relay-reuse-H{H}-{first}-newest-first~rf", relay_reuse(H, first, mode="rf", out_newest_first=True)))
     for perm in ((0, 1, 2), (2, 0, 1), (1, 2, 0), (0, 2, 1)):
         res.append((f"relay3-{''.join(map(str, perm))}", relay3(perm)))
     res.append(("relay3-long", relay3((0, 1, 2), extra_hops=3)))
